@@ -1,7 +1,7 @@
 (* C19 - reserved-address verdicts are consistent for hosts and networks.  Statements only (proofs: Kernels/Ip.v).
    Addresses are values after Go's To4 normalisation, so the 4-byte and IPv4-mapped forms are one value by
    construction; that the code agrees on both byte forms is checked by the correspondence. *)
-From ZL Require Import Kernels.Ip.
+From ZL Require Import Base.Bytes Kernels.Ip Kernels.Arpa.
 From Coq Require Import NArith List Bool.
 Open Scope N_scope.
 
@@ -43,6 +43,11 @@ Theorem c19_spelling : forall tbl a b,
   intersects tbl a = intersects tbl b.
 Proof. exact intersects_spelling. Qed.
 
+(* the reverse-DNS lint only ever blames a name that is a well-formed reverse-DNS name of its zone *)
+Theorem c19_arpa_reserved_needs_wellformed : forall tbl name p,
+  reserved_name tbl name p = true -> malformed_name name p = false.
+Proof. exact reserved_means_reserved. Qed.
+
 (* the lints report accordingly *)
 Theorem c19_lint_ips : forall tbl ips, lint_ips tbl ips = true <-> exists x, In x ips /\ is_reserved tbl x = true.
 Proof. exact lint_ips_iff. Qed.
@@ -55,5 +60,6 @@ Print Assumptions c19_sound.
 Print Assumptions c19_monotone.
 Print Assumptions c19_single.
 Print Assumptions c19_spelling.
+Print Assumptions c19_arpa_reserved_needs_wellformed.
 Print Assumptions c19_lint_ips.
 Print Assumptions c19_lint_nets.
